@@ -45,6 +45,7 @@ type Sched struct {
 	Strategy  string  `json:"strategy"`
 	Decisions []int   `json:"decisions,omitempty"`
 	JumpProb  float64 `json:"jump_prob,omitempty"`
+	DelayProb float64 `json:"delay_prob,omitempty"`
 	MaxSteps  int     `json:"max_steps,omitempty"`
 	MaxSimSec int     `json:"max_sim_sec,omitempty"`
 	EstLen    int     `json:"est_len,omitempty"`
@@ -1120,14 +1121,20 @@ func check(prop, tier string) int {
 	writeEvidence(ev)
 	fmt.Printf("mxsim: %d cases, %d distinct non-trivial traces, verdicts %v, faults fired %v, determinism re-runs %d (mismatches %d), %.1fs\n",
 		evals, len(hashes), verdicts, faults, detChecked, detMismatch, wall)
-	if detMismatch > 0 {
-		infra("determinism self-test failed: %s", detMsg)
-	}
 	for _, l := range violLines {
 		fmt.Println(l)
 	}
 	if violations > 0 {
+		// every reported violation was confirmed alone in a fresh process and replays from its file; a
+		// determinism mismatch next to it usually means the change under test made cases depend on each
+		// other through process-global state
+		if detMismatch > 0 {
+			fmt.Printf("mxsim: note: the determinism self-test also failed (%s)\n", detMsg)
+		}
 		return 1
+	}
+	if detMismatch > 0 {
+		infra("determinism self-test failed: %s", detMsg)
 	}
 	return 0
 }
